@@ -114,7 +114,10 @@ type inliner struct {
 	imports       map[string]string // path -> local name to add to the current file
 	writtenObjs   map[types.Object]bool
 	pendingThread *threadInfo
-	pendingSinks  []ast.Expr // where the next inlined call has to leave its results (instead of fresh temporaries)
+	litFuncs      map[types.Object]*types.Func // local variable / parameter bound once to a function literal and only ever called
+	litSynth      map[*types.Func]bool         // … bound while inlining (a callback argument): its free variables are the caller's
+	litVars       map[types.Object]bool        // closure variables of the source that are being inlined (their definition gets a blank use)
+	pendingSinks  []ast.Expr                   // where the next inlined call has to leave its results (instead of fresh temporaries)
 }
 
 // buildInlinedView returns an overlay in which calls to non-baseline functions are inlined, or nil if there is nothing to do.
@@ -151,6 +154,7 @@ func buildInlinedView(p *Prog) (map[string][]byte, *inlineStats) {
 			continue
 		}
 		in := &inliner{p: p, pk: pk, newFn: newFn, orig: map[ast.Node]ast.Node{}, stats: st}
+		in.registerClosures()
 		type fileState struct {
 			orig, clone *ast.File
 			imports     map[string]string
@@ -415,6 +419,11 @@ func (in *inliner) calleeOfCall(call *ast.CallExpr) (*types.Func, *ast.FuncDecl)
 		return nil, nil
 	}
 	fn, _ := in.pk.TypesInfo.Uses[id].(*types.Func)
+	if fn == nil {
+		if v, ok := in.pk.TypesInfo.Uses[id].(*types.Var); ok && in.litFuncs != nil {
+			fn = in.litFuncs[v]
+		}
+	}
 	if fn == nil {
 		return nil, nil
 	}
@@ -732,6 +741,14 @@ func (in *inliner) processStmt(s ast.Stmt, stack []*types.Func, sites []token.Po
 	case *ast.AssignStmt:
 		for _, r := range x.Rhs {
 			in.processFuncLits(r, stack, sites)
+		}
+		if x.Tok == token.DEFINE && len(x.Lhs) == 1 && len(x.Rhs) == 1 {
+			if id, ok := x.Lhs[0].(*ast.Ident); ok {
+				if o, _ := in.origOf(id).(*ast.Ident); o != nil && in.litVars[in.pk.TypesInfo.Defs[o]] {
+					// its calls are inlined: keep the variable used
+					return []ast.Stmt{x, &ast.AssignStmt{Lhs: []ast.Expr{ast.NewIdent("_")}, Tok: token.ASSIGN, Rhs: []ast.Expr{ast.NewIdent(id.Name)}}}
+				}
+			}
 		}
 		if len(x.Rhs) == 1 {
 			if call, ok := ast.Unparen(x.Rhs[0]).(*ast.CallExpr); ok {
@@ -1311,6 +1328,11 @@ func (in *inliner) inlineCallMode(call *ast.CallExpr, stack []*types.Func, sites
 		if obj.Parent() == nil {
 			return true // methods, fields, labels
 		}
+		if in.litSynth[fn] && obj.Parent() != in.pk.Types.Scope() && obj.Parent() != types.Universe {
+			// a callback literal written at the outer call site: the variables it captures are in scope where the
+			// inlined body stands (the callee's own locals are renamed, so nothing shadows them)
+			return true
+		}
 		// package-level or universe object: the same name must resolve to it at every enclosing call site
 		for _, pos := range callSites {
 			sc := in.pk.Types.Scope().Innermost(pos)
@@ -1586,6 +1608,16 @@ func (in *inliner) inlineCallMode(call *ast.CallExpr, stack []*types.Func, sites
 		}
 	}
 	// parameters
+	var boundLits []*types.Var
+	defer func() {
+		for _, pv := range boundLits {
+			if lfn := in.litFuncs[pv]; lfn != nil {
+				delete(in.newFn, lfn)
+				delete(in.litSynth, lfn)
+			}
+			delete(in.litFuncs, pv)
+		}
+	}()
 	params := sig.Params()
 	args := call.Args
 	if len(args) == 1 && params.Len() > 1 {
@@ -1612,6 +1644,22 @@ func (in *inliner) inlineCallMode(call *ast.CallExpr, stack []*types.Func, sites
 		}
 		if _, ok := subst[pv]; ok {
 			continue
+		}
+		// a function literal handed to a parameter that the callee only ever calls: its calls become the literal's body
+		if lit, ok := args[i].(*ast.FuncLit); ok && pv.Name() != "" && pv.Name() != "_" && in.litFuncs != nil {
+			if olit, _ := in.origOf(lit).(*ast.FuncLit); olit != nil && paramOnlyCalled(in.pk.TypesInfo, fd, pv) {
+				if lsig, ok := in.pk.TypesInfo.TypeOf(olit).(*types.Signature); ok {
+					lfd := &ast.FuncDecl{Name: ast.NewIdent(pv.Name()), Type: olit.Type, Body: olit.Body}
+					if inlinableBody(lfd) == "" {
+						lfn := types.NewFunc(olit.Pos(), in.pk.Types, pv.Name(), lsig)
+						in.litFuncs[pv] = lfn
+						in.litSynth[lfn] = true
+						in.newFn[lfn] = lfd
+						boundLits = append(boundLits, pv)
+						continue
+					}
+				}
+			}
 		}
 		bind(pv.Name(), pv.Type(), args[i])
 	}
@@ -1961,6 +2009,72 @@ func (in *inliner) inlineCallMode(call *ast.CallExpr, stack []*types.Func, sites
 	return stmts
 }
 
+// registerClosures finds, in the package, the local variables that are bound exactly once to a function literal and
+// only ever called (never passed on, stored or compared): calls of such a variable are calls of the literal. Only
+// literals introduced by non-baseline code are of interest, but a closure has no name to look up in the baseline, so
+// every such closure qualifies; the view is only consulted when the source view fails anyway.
+func (in *inliner) registerClosures() {
+	in.litFuncs = map[types.Object]*types.Func{}
+	in.litSynth = map[*types.Func]bool{}
+	in.litVars = map[types.Object]bool{}
+	info := in.pk.TypesInfo
+	for _, f := range in.pk.Syntax {
+		if in.p.isMockFile(f.Pos()) {
+			continue
+		}
+		called := map[*ast.Ident]bool{}
+		cand := map[types.Object]*ast.FuncLit{}
+		ast.Inspect(f, func(n ast.Node) bool {
+			switch x := n.(type) {
+			case *ast.CallExpr:
+				if id, ok := ast.Unparen(x.Fun).(*ast.Ident); ok {
+					called[id] = true
+				}
+			case *ast.AssignStmt:
+				if x.Tok == token.DEFINE && len(x.Lhs) == 1 && len(x.Rhs) == 1 {
+					if id, ok := x.Lhs[0].(*ast.Ident); ok {
+						if lit, ok := x.Rhs[0].(*ast.FuncLit); ok {
+							if obj := info.Defs[id]; obj != nil {
+								cand[obj] = lit
+							}
+						}
+					}
+				}
+			}
+			return true
+		})
+		if len(cand) == 0 {
+			continue
+		}
+		bad := map[types.Object]bool{}
+		ast.Inspect(f, func(n ast.Node) bool {
+			if id, ok := n.(*ast.Ident); ok {
+				if obj := info.Uses[id]; obj != nil && cand[obj] != nil && !called[id] {
+					bad[obj] = true // used as a value
+				}
+			}
+			return true
+		})
+		for obj, lit := range cand {
+			if bad[obj] || in.writtenAnywhere(obj) {
+				continue
+			}
+			sig, ok := info.TypeOf(lit).(*types.Signature)
+			if !ok {
+				continue
+			}
+			fd := &ast.FuncDecl{Name: ast.NewIdent(obj.Name()), Type: lit.Type, Body: lit.Body}
+			if inlinableBody(fd) != "" {
+				continue
+			}
+			fn := types.NewFunc(lit.Pos(), in.pk.Types, obj.Name(), sig)
+			in.litFuncs[obj] = fn
+			in.litVars[obj] = true
+			in.newFn[fn] = fd
+		}
+	}
+}
+
 // writtenAnywhere: the variable is assigned, incremented, address-taken or used as a range variable somewhere in the
 // package (beyond its declaration).
 func (in *inliner) writtenAnywhere(obj types.Object) bool {
@@ -2001,6 +2115,30 @@ func (in *inliner) writtenAnywhere(obj types.Object) bool {
 		}
 	}
 	return in.writtenObjs[obj]
+}
+
+// paramOnlyCalled: every use of the parameter in the function body is as the function of a call expression.
+func paramOnlyCalled(info *types.Info, fd *ast.FuncDecl, pv *types.Var) bool {
+	called := map[*ast.Ident]bool{}
+	ast.Inspect(fd.Body, func(n ast.Node) bool {
+		if c, ok := n.(*ast.CallExpr); ok {
+			if id, ok := ast.Unparen(c.Fun).(*ast.Ident); ok {
+				called[id] = true
+			}
+		}
+		return true
+	})
+	ok, n := true, 0
+	ast.Inspect(fd.Body, func(x ast.Node) bool {
+		if id, isID := x.(*ast.Ident); isID && info.Uses[id] == types.Object(pv) {
+			n++
+			if !called[id] {
+				ok = false
+			}
+		}
+		return true
+	})
+	return ok && n > 0
 }
 
 func (in *inliner) isTypeSwitchSymbol(fd *ast.FuncDecl, id *ast.Ident) bool {
